@@ -17,6 +17,7 @@ Print Assumptions C12_registry_invariant.
    -> instance, or rejects it -> its own error), SuitableVariantNotFound iff there is none, never anything else *)
 Theorem C12_registry : forall acc sites pre i s inp t present,
   nth_error sites i = Some s -> s_field s = true -> site_ok s (length (defs pre)) = true ->
+  crash_on_refill s = false ->                       (* not the region of finding optional-union-nonetype-variant *)
   assoc (s_fid s) inp = Some (Hashable t) ->          (* the site's key is present in the input and its value is t *)
   tag_unique (defs pre) s t -> plain_carriers sites (defs pre) s t -> no_keyerror acc (defs pre) s t present ->
   exists o, snd (step acc sites (final acc sites pre) (Decode i inp present)) = Some o
@@ -27,21 +28,21 @@ Print Assumptions C12_registry.
 (* the full statement has no [no_keyerror] hypothesis; the faithful model violates it: *)
 Definition C12_registry_full : Prop := forall acc sites pre i s inp t present,
   nth_error sites i = Some s -> s_field s = true -> site_ok s (length (defs pre)) = true ->
-  assoc (s_fid s) inp = Some (Hashable t) -> tag_unique (defs pre) s t -> plain_carriers sites (defs pre) s t ->
+  crash_on_refill s = false -> assoc (s_fid s) inp = Some (Hashable t) -> tag_unique (defs pre) s t -> plain_carriers sites (defs pre) s t ->
   exists o, snd (step acc sites (final acc sites pre) (Decode i inp present)) = Some o
             /\ field_spec acc (defs pre) s t present o.
 
 (* Known finding C12/variant-keyerror-misreported: the class carrying the tag IS found, its own from_dict raises a
    KeyError (a __pre_deserialize__ hook), the dispatcher takes that for a registry miss, refills, retries and reports
    SuitableVariantNotFound - "no class carries this tag" - although one does. *)
-Definition s_ke : site := Site [0] true false true false false false 0 0.
+Definition s_ke : site := Site [0] true false true false false false 0 0 false.
 Definition h_ke : list op := [Define [] [] [] [] false; Define [0] [(0, 1)] [] [] true].
 Theorem C12_variant_keyerror_refuted : ~ C12_registry_full.
 Proof.
   intros F.
   assert (U: tag_unique (defs h_ke) s_ke 1).
   { apply (proj1 (tag_uniqueb_iff (defs h_ke) s_ke 1 (wf_defs h_ke) eq_refl)). reflexivity. }
-  destruct (F acc_req [s_ke] h_ke 0 s_ke [(0, Hashable 1)] 1 [kerr_marker] eq_refl eq_refl eq_refl eq_refl U (fun c _ => eq_refl))
+  destruct (F acc_req [s_ke] h_ke 0 s_ke [(0, Hashable 1)] 1 [kerr_marker] eq_refl eq_refl eq_refl eq_refl eq_refl U (fun c _ => eq_refl))
     as [o [E [_ [_ [N _]]]]].
   vm_compute in E. injection E as <-.
   apply (proj1 N eq_refl 1). split.
@@ -56,17 +57,37 @@ Print Assumptions C12_variant_keyerror_refuted.
    reference semantics [ref_decode] says for the classes defined so far - provided only that every tag the input carries
    is carried by at most one eligible class at the dispatcher that reads it (uniq_all; computable: uniq_allb) *)
 Theorem C12_dispatch_ref : forall acc sites pre i inp present,
-  uniq_all sites (defs pre) inp ->
+  uniq_all sites (defs pre) inp -> no_crash sites ->
   snd (step acc sites (final acc sites pre) (Decode i inp present)) = Some (ref_decode acc sites (defs pre) i inp present).
 Proof. exact decode_ref. Qed.
 Print Assumptions C12_dispatch_ref.
 
 Theorem C12_history_independent_full : forall acc sites pre1 pre2 i inp present,
-  defs pre1 = defs pre2 -> uniq_all sites (defs pre1) inp ->
+  defs pre1 = defs pre2 -> uniq_all sites (defs pre1) inp -> no_crash sites ->
   snd (step acc sites (final acc sites pre1) (Decode i inp present))
   = snd (step acc sites (final acc sites pre2) (Decode i inp present)).
 Proof. exact history_independent_ref. Qed.
 Print Assumptions C12_history_independent_full.
+
+(* the full statement has no [no_crash] hypothesis; the faithful model violates it - known finding
+   C12/optional-union-nonetype-variant: Annotated[Optional[Union[A, B]], D(include_supertypes, tagger)] makes NoneType a
+   variant; the first registry miss crashes while compiling it (after registering the real classes), so the SAME input
+   through the SAME classes is answered differently before and after an earlier call *)
+Definition C12_history_independent_full_stmt : Prop := forall acc sites pre1 pre2 i inp present,
+  defs pre1 = defs pre2 -> uniq_all sites (defs pre1) inp ->
+  snd (step acc sites (final acc sites pre1) (Decode i inp present))
+  = snd (step acc sites (final acc sites pre2) (Decode i inp present)).
+Definition s_ou : site := Site [0; 1] true true true true false false 0 0 true.
+Definition h_ou : list op := [Define [] [] [(0, [5])] [] false; Define [0] [] [(0, [6])] [] false].
+Theorem C12_optional_union_refuted : ~ C12_history_independent_full_stmt.
+Proof.
+  intros F.
+  assert (UA: uniq_all [s_ou] (defs h_ou) [(0, Hashable 6)]).
+  { apply uniq_allb_sound; [apply wf_defs | reflexivity]. }
+  specialize (F acc_req [s_ou] h_ou (h_ou ++ [Decode 0 [(0, Hashable 5)] []]) 0 [(0, Hashable 6)] [] eq_refl UA).
+  vm_compute in F. discriminate F.
+Qed.
+Print Assumptions C12_optional_union_refuted.
 
 Theorem C12_uniq_all_decidable : forall sites ops inp, uniq_allb sites (defs ops) inp = true -> uniq_all sites (defs ops) inp.
 Proof. intros sites ops inp. apply uniq_allb_sound, wf_defs. Qed.
@@ -123,7 +144,7 @@ Print Assumptions C12_present_keys_not_missing.
 Theorem C12_history_independent : forall acc sites1 sites2 pre1 pre2 i1 i2 s inp1 inp2 t present,
   nth_error sites1 i1 = Some s -> nth_error sites2 i2 = Some s -> s_field s = true ->
   assoc (s_fid s) inp1 = Some (Hashable t) -> assoc (s_fid s) inp2 = Some (Hashable t) ->
-  defs pre1 = defs pre2 -> site_ok s (length (defs pre1)) = true -> tag_unique (defs pre1) s t ->
+  defs pre1 = defs pre2 -> site_ok s (length (defs pre1)) = true -> crash_on_refill s = false -> tag_unique (defs pre1) s t ->
   plain_carriers sites1 (defs pre1) s t -> plain_carriers sites2 (defs pre1) s t ->
   no_keyerror acc (defs pre1) s t present ->
   snd (step acc sites1 (final acc sites1 pre1) (Decode i1 inp1 present))
@@ -163,7 +184,7 @@ Print Assumptions C12_tag_unique_decidable.
 (* Remark (not a violation: the property is silent when two eligible classes share a tag): without
    uniqueness the answer depends on the history - a registry filled before the second class was
    defined keeps the first class, a fresh one answers with the last class of the walk. *)
-Definition s_demo : site := Site [0] true false true false false false 0 0.
+Definition s_demo : site := Site [0] true false true false false false 0 0 false.
 Definition h_stale : list op :=
   [Define [] [] [] [] false; Define [0] [(0, 1)] [] [] false; Decode 0 [(0, Hashable 1)] []; Define [0] [(0, 1)] [] [] false].
 Definition h_fresh : list op :=
@@ -180,10 +201,10 @@ Print Assumptions C12_nonunique_order_dependent.
    its own class-level discriminator is a dispatcher over its strict subclasses, so a tag carried by such a
    class is answered by SuitableVariantNotFound - this is what the hypothesis plain_carriers excludes. *)
 Definition sites_nested : list site :=
-  [Site [0] true false true false true false 0 0; Site [1] true false true false true false 0 0].
+  [Site [0] true false true false true false 0 0 false; Site [1] true false true false true false 0 0 false].
 Definition h_nested : list op := [Define [] [] [] [] false; Define [0] [(0, 1)] [] [] false; Define [1] [(0, 2)] [] [] false].
 Theorem C12_class_level_self_excluded :
-  carries (defs h_nested) (Site [0] true false true false true false 0 0) 1 1
+  carries (defs h_nested) (Site [0] true false true false true false 0 0 false) 1 1
   /\ snd (step acc_req sites_nested (final acc_req sites_nested h_nested) (Decode 0 [(0, Hashable 1)] [])) = Some ONotFound
   /\ snd (step acc_req sites_nested (final acc_req sites_nested h_nested) (Decode 0 [(0, Hashable 2)] [])) = Some (OInst 2).
 Proof.
@@ -199,8 +220,8 @@ Print Assumptions C12_class_level_self_excluded.
    which contradicts the no-field clause; without the earlier decode the same call answers C1. *)
 Theorem C12_nofield_inherited_unpacker_refuted :
   nth_error (krun kf_sites (kf_pre ++ [Decode 1 [] [0; 1]])) 3 = Some (Some ONotFound)
-  /\ ~ nofield_spec acc_req (defs kf_pre) (Site [1] false true false false false false 0 0) [0; 1] ONotFound
-  /\ nofield_spec acc_req (defs kf_pre) (Site [1] false true false false false false 0 0) [0; 1] (OInst 1)
+  /\ ~ nofield_spec acc_req (defs kf_pre) (Site [1] false true false false false false 0 0 false) [0; 1] ONotFound
+  /\ nofield_spec acc_req (defs kf_pre) (Site [1] false true false false false false 0 0 false) [0; 1] (OInst 1)
   /\ nth_error (krun kf_sites [Define [] [] [] [0] false; Define [0] [] [] [1] false; Decode 1 [] [0; 1]]) 2 = Some (Some (OInst 1)).
 Proof. exact nofield_inherited_unpacker_refuted. Qed.
 Print Assumptions C12_nofield_inherited_unpacker_refuted.
@@ -209,7 +230,7 @@ Print Assumptions C12_nofield_inherited_unpacker_refuted.
    absent -> MissingDiscriminator (the inner error is not a KeyError, the outer dispatcher lets it through); inner key
    present -> the inner subclass; the stale/fresh state of either registry is irrelevant. *)
 Definition sites_2key : list site :=
-  [Site [0] true false true false true false 0 0; Site [1] true false true false true false 1 0].
+  [Site [0] true false true false true false 0 0 false; Site [1] true false true false true false 1 0 false].
 Definition h_2key : list op := [Define [] [] [] [] false; Define [0] [(0, 5)] [] [] false; Define [1] [(1, 7)] [] [] false].
 Theorem C12_nested_missing_key :
   snd (step acc_req sites_2key (final acc_req sites_2key h_2key) (Decode 0 [(0, Hashable 5)] [])) = Some OMissing
@@ -235,7 +256,7 @@ Proof.
   split; [reflexivity|]. split.
   - apply (proj1 (C12_tag_unique_decidable h_late s_demo 3 eq_refl)). reflexivity.
   - split; [reflexivity|]. split; [|reflexivity].
-    destruct (C12_registry acc_req [s_demo] h_late 0 s_demo [(0, Hashable 3)] 3 [] eq_refl eq_refl eq_refl eq_refl
+    destruct (C12_registry acc_req [s_demo] h_late 0 s_demo [(0, Hashable 3)] 3 [] eq_refl eq_refl eq_refl eq_refl eq_refl
                 (proj1 (C12_tag_unique_decidable h_late s_demo 3 eq_refl) eq_refl)
                 (fun c _ => eq_refl)) as [o [E S]].
     { intros c _. (* acceptance never raises KeyError here: no class has the hook *)
@@ -248,7 +269,7 @@ Qed.
 (* non-vacuity of C12_multi_field: a holder with two discriminated fields over two hierarchies with different tagger
    functions (ids 0 and 1) and different keys; the same tag value means different classes at the two sites *)
 Definition sites_mf : list site :=
-  [Site [0] true false true true false false 0 0; Site [1] true false true true false false 1 1].
+  [Site [0] true false true true false false 0 0 false; Site [1] true false true true false false 1 1 false].
 Definition h_mf : list op :=
   [Define [] [] [] [] false; Define [] [] [] [] false;
    Define [0] [] [(0, [5]); (1, [6])] [] false; Define [1] [] [(0, [6]); (1, [5])] [] false].
@@ -262,8 +283,8 @@ Proof. vm_compute. repeat split. Qed.
 (* mixed nesting, in the model: a no-field class-level dispatcher below a field one and a field one below a no-field
    one (class 1 dispatches its subclasses by acceptance, class 4 by key 0) *)
 Definition sites_mix : list site :=
-  [Site [0] true false true false true false 0 0; Site [1] true false false false true false 0 0;
-   Site [4] true false true false true false 0 0].
+  [Site [0] true false true false true false 0 0 false; Site [1] true false false false true false 0 0 false;
+   Site [4] true false true false true false 0 0 false].
 Definition h_mix : list op :=
   [Define [] [] [] [] false; Define [0] [(0, 1)] [] [] false; Define [1] [] [] [7] false; Define [1] [] [] [8] false;
    Define [1] [] [] [9] false; Define [4] [(0, 2)] [] [] false].
@@ -276,7 +297,7 @@ Example C12_mixed_nesting :
 Proof. vm_compute. repeat split. Qed.
 
 (* no-field mode: subclass wins over the base although the base accepts too; base only as a last resort *)
-Definition s_nf : site := Site [0] true true false false false false 0 0.
+Definition s_nf : site := Site [0] true true false false false false 0 0 false.
 Definition h_nf : list op := [Define [] [] [] [0] false; Define [0] [] [] [1] false; Define [0] [] [] [2] false].
 Example C12_nofield_nonvacuous :
   snd (step acc_req [s_nf] (final acc_req [s_nf] h_nf) (Decode 0 [] [0; 2])) = Some (OInst 2)
